@@ -275,6 +275,9 @@ pub fn run(ctx: &Ctx) {
         .map(|i| Case { kind: (i % 3) as u8, len: ctx.tier.pick(262_144, if i % 4 == 2 { 1 << 20 } else { 8 << 20 }), seed: 77 + i as u32, codec: 1 + (i % 4) as u8, wsplit: vec![65_536, 1, 4096], rsplit: vec![8192, 3] })
         .collect();
     run_list(ctx, "codec-pairings-large", &big, |c| check(c, false));
+    // just above 1 MiB for every codec in every tier (buffer / member-size thresholds of the codecs)
+    let mib: Vec<Case> = (1..=4u8).map(|c| Case { kind: if c % 2 == 0 { 2 } else { 0 }, len: (1 << 20) + 1 + u32::from(c), seed: 5 + u32::from(c), codec: c, wsplit: vec![], rsplit: vec![] }).collect();
+    run_list(ctx, "codec-pairings-above-1MiB", &mib, |c| check(c, false));
     run_list(ctx, "unknown-compression", &[0u8, 1u8], check_unknown);
     python_batch(ctx);
     for c in ["empty-input", "one-byte", "large-input", "multi-write", "multi-read", "starts-with-codec-magic", "already-compressed-payload", "after-failed-decompress", "internal-brotli", "internal-gzip", "internal-zstd", "internal-none"] {
@@ -284,7 +287,7 @@ pub fn run(ctx: &Ctx) {
 
 pub fn replay(sub: &str, case: &Value) -> Option<CaseResult> {
     match sub {
-        "codec-pairings" | "codec-pairings-large" => Some(check(&super::de(case)?, false)),
+        "codec-pairings" | "codec-pairings-large" | "codec-pairings-above-1MiB" => Some(check(&super::de(case)?, false)),
         "unknown-compression" => Some(check_unknown(&0)),
         _ => None,
     }
